@@ -28,6 +28,9 @@ fn hex_str(s: &str) -> String {
 
 fn finish_report(int: Int<'_>) -> String {
     let rec = int.iter_ast().count();
+    let fnv = |t: &str| t.bytes().fold(0xcbf29ce484222325u64, |h, b| (h ^ b as u64).wrapping_mul(0x100000001b3));
+    let rec_hashes: Vec<u64> = int.iter_ast().map(|a| fnv(a.source())).collect();
+    let rec_into: Vec<u64> = int.clone().into_iter_ast().map(|a| fnv(a.source())).collect();
     let qa = int.get_q_alias();
     let ca = int.get_c_alias();
     let tree = int.get_ops_tree();
@@ -43,6 +46,10 @@ fn finish_report(int: Int<'_>) -> String {
         c.get(), c.num(), raw.len(), fmt_c(raw), rec, hex_str(&qa), hex_str(&ca), hex_str(&tree), outs.len()
     );
     for o in outs { s.push_str(&format!(" {}", o)); }
+    // the record itself: FNV-1a of every recorded chunk's source, in record order, through both accessors
+    s.push_str(&format!(" rech {}", rec_hashes.len()));
+    for h in &rec_hashes { s.push_str(&format!(" {:016x}", h)); }
+    s.push_str(if rec_into == rec_hashes { " reci 1" } else { " reci 0" });
     s
 }
 
